@@ -317,3 +317,16 @@ impl Default for Map32 {
         Self::new()
     }
 }
+
+#[cfg(feature = "verif")]
+impl Map32 {
+    pub(crate) fn verif_prev_link(&self, chunk: usize) -> i32 {
+        self.prev_link[chunk]
+    }
+    pub(crate) fn verif_next_link(&self, chunk: usize) -> i32 {
+        self.next_link[chunk]
+    }
+    pub(crate) fn verif_region_map_entry(&self, index: i32) -> i32 {
+        self.region_map.get_entry(index)
+    }
+}
